@@ -107,6 +107,27 @@ func c13R6(p *core.Program, r *core.Report) {
 				if ix, isIx := e.(*ast.IndexExpr); isIx && plainPath(f, ix.X) && isParam(f, ix.Index) {
 					ok = true
 				}
+			case len(stmts) == 2 && func() bool {
+				// `if v, ok := u.m[key]; ok { return v }; return nil`: the stored value, or the zero value when absent
+				ifs, isIf := stmts[0].(*ast.IfStmt)
+				if !isIf || ifs.Else != nil || len(ifs.Body.List) != 1 {
+					return false
+				}
+				as, isAs := ifs.Init.(*ast.AssignStmt)
+				inner, isRet := ifs.Body.List[0].(*ast.ReturnStmt)
+				if !isAs || !isRet || len(as.Lhs) != 2 || len(as.Rhs) != 1 || len(inner.Results) != 1 {
+					return false
+				}
+				ix, isIx := ast.Unparen(as.Rhs[0]).(*ast.IndexExpr)
+				if !isIx || !plainPath(f, ix.X) || !isParam(f, ix.Index) {
+					return false
+				}
+				if core.VarOf(info, ifs.Cond) != core.VarOf(info, as.Lhs[1]) || core.VarOf(info, inner.Results[0]) != core.VarOf(info, as.Lhs[0]) || core.VarOf(info, inner.Results[0]) == nil {
+					return false
+				}
+				return constNil(info, e) || constStrIs(info, e, "")
+			}():
+				ok = true
 			case len(stmts) == 2:
 				// v, _ := u.m[key]; return v
 				if as, isAs := stmts[0].(*ast.AssignStmt); isAs && len(as.Rhs) == 1 && core.VarOf(info, as.Lhs[0]) == core.VarOf(info, e) && core.VarOf(info, e) != nil {
